@@ -5,8 +5,8 @@ CHECK = dict(
     rule="a case is non-trivial when at least one of its scripts calls a mutating binding (image.copy, image.importTar, tag.delete, "
          "manifest.put / <manifest>:put, <manifest>:delete, blob.put / <blob>:put, reference.close); distinct by (driver, text of every script).",
     jobs=[REPLAY,
-          rapid("sanity", "TestVerifSanity", 480, 2400, sq=4, st=8),
-          rapid("prop", "TestVerifProp", 6400, 64000, sq=16, st=16)],
+          rapid("sanity", "TestVerifSanity", 600, 2400, sq=2, st=4),
+          rapid("prop", "TestVerifProp", 9600, 160000, sq=16, st=16)],
     technique="property-based testing (rapid): Lua scripts generated from the documented regbot API (every binding the sandbox registers, "
               "enumerated from a live sandbox by the sanity job) with loops over listings, conditionals, pcall, error(); run with the dry-run "
               "option through sandbox.New(WithDryRun) and through the real `regbot once --dry-run -c <yaml>` cobra command against in-process "
@@ -14,9 +14,9 @@ CHECK = dict(
               "registries, recursive before/after listings of the layout tree taken at every statement boundary, marker log lines, and a "
               "dry-run vs normal-run differential for read-only scripts",
     level_text="Generated-input search over scripts (1-4 per configuration, 0-6 top-level statements each, drawn from ~30 statement templates "
-               "covering all 38 registered Lua functions) x worlds (imggen image graphs placed raw in 1-3 registry repositories on two model "
+               "covering all 39 registered Lua functions, with objects handed from one statement to a later one through globals) x worlds (imggen image graphs placed raw in 1-3 registry repositories on two model "
                "hosts with generated feature sets and 0-2 OCI layouts) x regbot configurations (driver, defaults.parallel 0-3, per-script "
-               "timeout, verbosity, YAML style). Per case: (1) no model host saw a request whose method is not GET/HEAD; (2) the recursive "
+               "and default timeout, verbosity, YAML style). Per case: (1) no model host saw a request whose method is not GET/HEAD; (2) the recursive "
                "listing (type, mode, size, mtime, inode, sha256) of the directory that holds every layout (and would hold newly created ones) is "
                "unchanged; (3) when no script calls a mutating binding, the same scripts run again in normal mode on the same state log the same "
                "messages and end the same way; (4) an unprotected error() stops its script there, every script starts whatever happened to the "
@@ -28,5 +28,7 @@ CHECK = dict(
     assumptions=["a state-changing request is any request whose method is not GET or HEAD, whether or not the registry accepts it",
                  "the directory <root>/lay holds every layout a script names; local files a script names (export target, import source) live in <root>/scratch and are not layout files",
                  "scripts running concurrently (defaults.parallel > 0) use disjoint repositories / layouts, so that an effect can be attributed to a script",
+                 "a case calls blob.get at most twice per registry host: the reader it returns is never closed by the sandbox and keeps one of the "
+                 "host's 3 request slots, so a 4th request would block until the script timeout (a termination matter, outside this statement)",
                  "in-memory transport for the sandbox driver, plain HTTP over loopback for the cobra driver (tls: disabled)"],
 )
